@@ -39,7 +39,7 @@ Symbols ==
     [] SymbolSet = "number" ->    \* number characters and their neighbourhood
          {B(<<c>>) : c \in {"0", "1", "9", "-", "+", ".", "e", "E", " ", ",", "x"}}
     [] SymbolSet = "comment" ->
-         {B(<<c>>) : c \in {"/", "*", "\n", " ", "1", "[", "]", "x"}}
+         {B(<<c>>) : c \in {"/", "*", "\n", " ", "1", "[", "]", "x"}} \cup {B(<<"/", "*">>), B(<<"*", "/">>)}
     [] SymbolSet = "keyword" ->
          {B(<<c>>) : c \in {"t", "r", "u", "e", "n", "l", "N", "I", "a", " ", "f", "s"}}
     [] SymbolSet = "hex" ->       \* \u escapes: characters next to the hex digits in the ASCII table
